@@ -4,10 +4,10 @@ import resource
 from rfbgen import *  # noqa
 
 ID = "C01"
-PROOF_MODULES = ["VncProofs.C01", "VncProofs.System"]
+PROOF_MODULES = ["VncProofs.C01", "VncProofs.System", "VncProofs.Framing"]
 THEOREMS = ["Vnc.feed_feed", "Vnc.feedAll_flatten", "Vnc.chunkings_agree", "Vnc.rfb_progress", "Vnc.C01_seg_indep",
             "Vnc.C01_chunkings", "Vnc.C01_seg_indep_from", "Vnc.C01_observable", "Vnc.C01_vmware_no_match",
-            "Vnc.C01_vmware_match", "Vnc.C01_vmware_pattern", "Vnc.Sys_seg_indep", "Vnc.Sys_chunkings", "Vnc.Sys_rechunk"]
+            "Vnc.C01_vmware_match", "Vnc.C01_vmware_pattern", "Vnc.Sys_seg_indep", "Vnc.Sys_chunkings", "Vnc.Sys_rechunk", "Vnc.framing_constants", "Vnc.framing_constants_need"]
 TRUSTED = [
     "Lean 4.33 kernel; standard axioms only",
     "VncModel/Rfb.lean (every _handle* state of RFBClient, vncConnectionMade/vncRequestPassword of the three client classes, VMWareClient.dataReceived) is tied to rfb.py / client.py by this correspondence run: same chunks to implementation and model, outputs compared token by token (callbacks with arguments, writes, close, exception class)",
@@ -174,7 +174,7 @@ def run(ctx):
     if ctx.tier == "thorough":
         import itertools
         for kind in ("base", "lib"):
-            stream = b"RFB 003.008\n" + bytes([2, 2, 1]) + bytes(4) + server_init(2, 2, vclient.RGB32, b"ab")[:18]
+            stream = b"RFB 003.008\n" + bytes([2, 2, 1]) + bytes(4) + server_init(2, 2, vclient.RGB32, b"ab")[:14]
             tail = stream[12:]
             n = len(tail)
             ref = None
